@@ -6,6 +6,8 @@ import Rare.Proofs.C19Tok
 import Rare.Proofs.C19F64c
 import Rare.Proofs.C19Ops
 import Rare.Proofs.C19Pool
+import Rare.Proofs.C19Vars
+import Rare.Proofs.C19IntText
 import Rare.Gen.C19
 import Rare.Gen.Access
 /-!
@@ -1094,6 +1096,85 @@ theorem special_values_constants_and_bindings :
 example : classify arithT (ascii "pi") = some (.named (ascii "pi")) ∧ classify arithT (ascii "e") = some (.named (ascii "e")) ∧
     evalF64 (ascii "1e-3") 0 = none ∧ evalF64 (ascii "0.001") 0 = some 0x3F50624DD2F1A9FC ∧
     evalF64 (ascii "1e3") 0 = some (ofInt 1000).bits := by decide +kernel
+
+/-! ### Round 4b: look-ups on the parse tree; integer texts; (see also the logarithms below) -/
+
+/-- **The look-ups of the compiled formula are the variable occurrences of its parse** – for every
+    arithmetic: compile-time folding removes only sub-formulas WITHOUT variables (`simplify` keeps an
+    expression whenever its probe counted a look-up), and nothing else is dropped: no algebraic
+    simplification (`0*x`), no short circuit (`0 && x`, `1 || x`).  `t.vars` lists the literal tokens of the
+    parse that denote `[n]` / `[name]` / bare names, left to right, groups entered. -/
+theorem lookups_are_formula_variables (s : Bytes) (t : Tree) (e : Expr α) (h : compile A s = .ok (t, e)) :
+    e.vars = t.vars (classify A) :=
+  compile_vars A s t e h
+
+/-- …so `<BAD-TYPE>` is decided by the FORMULA TEXT and the context alone (strengthens
+    `kfmath_badtype_iff`, which spoke about the compiled expression): the stage `{! s}` answers
+    `<BAD-TYPE>` as soon as ONE variable occurrence of the parse of `s` is bound to a text `ParseFloat`
+    rejects – wherever it stands, also under `0 *` or behind `1 ||` –, and prints the value of the parse
+    when all of them parse. -/
+theorem kfmath_badtype_iff_formula (L : Libm) (s : Bytes) (t : Tree) (e : Expr F64)
+    (h : compile (arith L) s = .ok (t, e)) :
+    ∃ st, Rare.Expr.Funcs.Math.kfMathWith (mathInstL L) [Rare.Expr.Stage.lit s] = .ok ⟨some st, none⟩ ∧
+      ∀ ctx : Rare.Expr.Ctx,
+        ((∃ v ∈ t.vars (classify (arith L)), F64.parseFloat (v.text ctx) = none) →
+          st.run ctx = .ok Rare.Expr.ErrorNum) ∧
+        ((∀ v ∈ t.vars (classify (arith L)), (F64.parseFloat (v.text ctx)).isSome = true) →
+          st.run ctx = .ok (render (t.eval (arith L) (classify (arith L)) (ctxBinding ctx)))) := by
+  obtain ⟨st, h1, h2⟩ := kfmath_stage_is_stateless L s t e h
+  refine ⟨st, h1, fun ctx => ?_⟩
+  have hv : Pool.lookups e = t.vars (classify (arith L)) := by
+    rw [lookups_eq_vars]; exact compile_vars (arith L) s t e h
+  obtain ⟨_, hb, hg⟩ := kfmath_badtype_iff L e ctx
+  rw [hv] at hb hg
+  constructor
+  · intro hx; rw [h2, hb hx]
+  · intro hx; rw [h2, hg hx, formula_value (arith L) s t e h]
+
+/-- not vacuous: `0*x + (0 && [2]) + (1 || y) + 2*3` looks up `x`, `[2]`, `y` (in this order) although none of
+    them can influence the value, and nothing for the folded `2*3`; with `[2]` = "abc" the stage answers
+    `<BAD-TYPE>`, with all three numeric it prints 7. -/
+example :
+    (match compile (arith libm0) (ascii "0*x + (0 && [2]) + (1 || y) + 2*3") with
+     | .ok (t, e) =>
+       decide (Pool.lookups e = [.named [120], .idx 2, .named [121]]) &&
+       decide (t.vars (classify (arith libm0)) = [.named [120], .idx 2, .named [121]])
+     | .error _ => false) = true ∧
+    (match kfMath [Rare.Expr.Stage.lit (ascii "0*x + (0 && [2]) + (1 || y) + 2*3")] with
+     | .ok ⟨some st, none⟩ =>
+       (match st.run ⟨fun _ => ascii "abc", fun _ => ascii "5"⟩, st.run ⟨fun _ => ascii "4", fun _ => ascii "5"⟩ with
+        | .ok a, .ok b => decide (a = ascii "<BAD-TYPE>") && decide (b = ascii "7")
+        | _, _ => false)
+     | _ => false) = true := by
+  decide +kernel
+
+/-- **A decimal integer reads the same as constant and as bound text – every int64, every length.**  For a
+    decimal spelling `ds` without leading zero: (1) what `compileToken` makes of the token (`ParseInt(s,0,64)`
+    then `float64(n)`, or beyond int64 `ParseFloat`) is what the wrapper's look-up makes of the same text
+    (`ParseFloat`): `classify = (parseFloat ds).map num` – too long for `ParseFloat` means neither a constant
+    nor a legal binding; (2) up to 2^63 that value is `float64(n)`, one rounding to nearest even (so
+    `9007199254740993` is …992 both ways); (3) the bound text `-ds` denotes what the formula `-ds` – unary minus
+    applied to the constant – evaluates to (`-0` included).  Closes the gap `constant_equals_bound_text` left
+    (spellings `ParseInt` accepts); the boundary (leading zeros, prefixes) is
+    `constant_vs_bound_text_counterexample`. -/
+theorem int_constant_equals_bound_text (L : Libm) (ds : Bytes) (hne : ds ≠ []) (h0 : ds.head? ≠ some 48)
+    (hd : ∀ d ∈ ds, isBaseDigit 10 d = true) :
+    classify (arith L) ds = (F64.parseFloat ds).map Atom.num ∧
+    (baseVal 10 ds ≤ 9223372036854775808 →
+      conv ds = (ofInt (baseVal 10 ds), 0) ∧
+      conv (45 :: ds) = ((arith L).un [45] (ofInt (baseVal 10 ds)), 0)) := by
+  refine ⟨classify_dec L ds hne h0 hd, fun hr => ⟨?_, ?_⟩⟩
+  · simp only [conv, parseFloat_dec_int ds hne hd hr]
+  · simp only [conv, parseFloat_neg_dec_int ds hne hd hr, un_neg]
+
+/-- not vacuous: `9223372036854775807` (MaxInt64: constant through `ParseInt`), `9223372036854775808` and
+    `18446744073709551616` (through `ParseFloat`) as constants and as texts; `-5` as text and as formula. -/
+example : evalF64 (ascii "9223372036854775807") 0 = some (conv (ascii "9223372036854775807")).1.bits ∧
+    evalF64 (ascii "9223372036854775807") 0 = some 0x43E0000000000000 ∧
+    evalF64 (ascii "18446744073709551616") 0 = some (conv (ascii "18446744073709551616")).1.bits ∧
+    evalF64 (ascii "-5") 0 = some (conv (ascii "-5")).1.bits ∧ (conv (ascii "-5")).2 = 0 ∧
+    evalF64 (ascii "-0") 0 = some (conv (ascii "-0")).1.bits ∧ (conv (ascii "-0")).1 = zero true := by
+  decide +kernel
 
 end ieee
 
